@@ -1955,6 +1955,37 @@ class Engine:
         if isinstance(v, Ptr) and n in roots and v.addr not in done_ptrs:
           done_ptrs.add(v.addr)
           self.havoc_value(st, v, n, decl, keep_len=not self.may_resize(body, n))
+    if st.__dict__.get("cong_mod") is not None:
+      # congruence mode: whatever the loop body computes may be a reduced residue in the real code, so every value
+      # havocked at the cut is treated like a dropped `% mod` (comparisons on it are arbitrary)
+      for n in sorted(names | roots):
+        if n in env and n not in lc.get("keep", ()):
+          self.taint_value(st, env[n])
+
+  def taint_value(self, st, v, depth=0):
+    ids = st.__dict__.setdefault("reduced_ids", set())
+    keep = st.__dict__.setdefault("reduced_keep", [])
+    if is_sym(v):
+      ids.add(v.get_id()); keep.append(v)
+    elif isinstance(v, Opt):
+      self.taint_value(st, v.val, depth + 1)
+    elif isinstance(v, tuple):
+      for x in v:
+        self.taint_value(st, x, depth + 1)
+    elif isinstance(v, Ptr) and depth < 3:
+      o = st.deref(v)
+      if isinstance(o, HList):
+        if o.items is not None:
+          for x in o.items:
+            self.taint_value(st, x, depth + 1)
+        else:
+          def leaves(rep):
+            if is_sym(rep):
+              ids.add(rep.get_id()); keep.append(rep)
+            elif isinstance(rep, (tuple, list)):
+              for r in rep:
+                leaves(r)
+          leaves(o.rep)
 
   def heap_type(self, st, p):
     o = st.deref(p)
@@ -2269,11 +2300,15 @@ class Engine:
     if getattr(c, "congruence_mod", None) and (c.returns_expr is not None or (c.caller_ensures or [])):
       # congruence-mode contracts: what CALLERS assume (caller_ensures, returns_expr) is about the real integer values,
       # so it is proved in a second pass over the unmodified body (no `%` dropped, no ghost coordinates)
+      # only untagged (structural) invariants / hints take part in this pass: clauses tagged with property ids are the
+      # ring-mode argument
       self.value_pass = True
+      saved_prop, self.prop = self.prop, "__value_pass__"
       try:
         r = self._explore(c, fn, module, body, set())
       finally:
         self.value_pass = False
+        self.prop = saved_prop
       if r["status"] != "ok":
         return r
       n_paths += r["paths"]
